@@ -88,6 +88,13 @@ func execConstruct(t *testing.T, p *SPlan) *sim.Outcome {
 		if cerr != nil {
 			o.Probe("construct_failure_reported")
 		}
+		// no-upstream mode lists the underlying agent while constructing: its failure has to surface
+		if cerr == nil && p.NoUp && p.Construct != "refuse_dial" && p.Construct != refagent.FaultCloseAfter {
+			o.Fail("C10.construct", "construct_error_swallowed", 0, "shimagent.New succeeded in no-upstream mode although the underlying agent answered the construction-time list request with fault %q", p.Construct)
+		}
+		if cerr == nil && p.Construct == "refuse_dial" {
+			o.Fail("C10.construct", "dial_error_swallowed", 0, "shimagent.New succeeded although the underlying agent's socket does not exist")
+		}
 		if shim != nil {
 			// a constructed shim must stay usable as an error-returning object
 			func() {
